@@ -350,8 +350,15 @@ def run(chk):
     for k in range(6 if chk.tier == "quick" else 24):
         zc = rng.choice([-1, 1]) * rng.uniform(1.5, 3.0)
         nv = rng.choice([3, 4, 5])
-        ang = sorted(2 * math.pi * (k2 + rng.uniform(-0.3, 0.3)) / nv for k2 in range(nv))
-        wl = [(1.5 + rng.uniform(0.3, 0.6) * math.cos(a), zc + rng.uniform(0.3, 0.6) * math.sin(a)) for a in ang]
+        # the reference point (1.5, zc) must be inside the wall (the contract of the mask): with three vertices an angular gap can exceed
+        # 180 degrees, which puts it outside -- such draws are repeated
+        for _ in range(100):
+            ang = sorted(2 * math.pi * (k2 + rng.uniform(-0.3, 0.3)) / nv for k2 in range(nv))
+            wl = [(1.5 + rng.uniform(0.3, 0.6) * math.cos(a), zc + rng.uniform(0.3, 0.6) * math.sin(a)) for a in ang]
+            if inside_polygon(np.array(wl), np.array([1.5]), np.array([zc]))[0] and dist_to_polygon(np.array(wl), np.array((1.5, zc))) > 0.02:
+                break
+        else:
+            wl = [(1.5 + 0.5 * math.cos(2 * math.pi * k2 / nv), zc + 0.5 * math.sin(2 * math.pi * k2 / nv)) for k2 in range(nv)]
         rot = rng.randrange(nv)
         wl = wl[rot:] + wl[:rot]
         if k % 2:
